@@ -156,6 +156,14 @@ Outcomes(T, q1, q2, s, a, ns, na, win) ==
 \* sup-norm non-expansion for alpha in [0,1] ((1-alpha) e + alpha gamma e <= e) plus one rounding (two for
 \* expected SARSA, whose target is rounded as well)
 Err(T, n) == IF T.alg = "ESARSA" THEN 2 * n ELSE n
+\* Perturbed rewards (near-tie family, T.pert = 1): the real MDP pays R + d * 2^-40 with d in {-1,0,1} while the model
+\* folds the integer R.  One update moves the real fold by at most alpha * 2^-40 <= 2^-24 units away from the model's,
+\* and the update is non-expansive, so after n <= 120 updates the two differ by < 120 * 2^-24 < 10^-5 units.  Every
+\* comparison below leaves at least 1/2 unit between its derived need and its tolerance (step: need Err(n+1) + 1/2,
+\* allowed Err(n+1) + 1; table: need Err(n) + 1, allowed Err(n) + 2; bounds: need 1/2, allowed 1; reward: the logged
+\* reward is rounded to units, |d| * 2^-24 units never changes the rounding), so the perturbation is absorbed.
+\* The policy clause has NO tolerance: T.rank holds the dense ranks of the returned floats under exact comparison
+\* (msdm selects the maximisers with ==), and Finish demands support = actions of maximal rank at visited states.
 
 \* interval spanned by the initial values (0 at absorbing states) and the discounted reward bounds;
 \* undiscounted: after n updates.  Returned as <<lo * d, hi * d, d>>.
